@@ -36,6 +36,8 @@ func init() {
 				rf := elin.CheckField(run, p, "LIN")
 				rs := elin.CheckScalarPack(run, p, "LIN")
 				rr := elin.CheckRecodings(run, p, "LIN")
+				rm := elin.CheckMul(run, p, "MUL")
+				stats["mul/"+id] = map[string]int{"functions": rm.Functions, "obligations": rm.Obligations, "discharged": rm.Discharged}
 				if id == "purego" && os.Getenv("VOI_ELIN_NOLATTICE") == "" {
 					// internal/lattice is configuration-independent: purego here, amd64 below
 					rl := elin.CheckLattice(run, p, "LAT")
@@ -51,10 +53,14 @@ func init() {
 			runtime.GC()
 		}
 		run.NotDecided = append(run.NotDecided, elin.LatticeNotDecided...)
+		run.NotDecided = append(run.NotDecided, elin.MulNotDecided...)
 		if os.Getenv("VOI_ELIN_NOLATTICE") == "" && os.Getenv("VOI_ELIN_CONFIGS") == "" {
 			if p := c.Prog("amd64"); p != nil {
 				rl := elin.CheckLattice(run, p, "LAT")
 				stats["lattice/amd64"] = map[string]int{"functions": rl.Functions, "obligations": rl.Obligations, "discharged": rl.Discharged}
+				// the Go multiplication code of the amd64 configuration (feMul / fePow2k are assembly there)
+				rm := elin.CheckMul(run, p, "MUL")
+				stats["mul/amd64"] = map[string]int{"functions": rm.Functions, "obligations": rm.Obligations, "discharged": rm.Discharged}
 				c.Drop("amd64")
 			}
 		}
